@@ -115,6 +115,7 @@ def history(ev: List[int], df: List[int]) -> bool:
     """
     pre: len(ev) == P["depth"] and len(df) == P["depth"] and all(0 <= e < len(EVENTS) for e in ev) and all(0 <= d <= 1 for d in df)
     pre: ev[0] == P["first"] and df[0] == P["fd"]
+    pre: P["alpha"] is None or all(ev[i] in P["alpha"] and df[i] == 0 for i in range(1, len(ev)))
     post: _
     """
     hx.begin()
@@ -175,13 +176,14 @@ def specs(tier, seed, carve):
     import random
     rnd = random.Random(seed)
     firsts = [(e, d) for e in range(len(EVENTS)) for d in (0, 1)]
-    plan = [(2, firsts), (3, rnd.sample(firsts, 3) if q else firsts)]
+    core = [EVENTS.index(x) for x in ("cer", "dwr", "ccr", "ccr_missing_avp", "cea", "cca", "app_answers_oldest", "app_answers_oldest_again")]
+    plan = [(2, firsts, None), (3, rnd.sample(firsts, 6), core) if q else (3, firsts, None)]
     if not q:
-        plan.append((4, rnd.sample(firsts, 4)))
-    for depth, fs in plan:
+        plan.append((4, firsts, core))
+    for depth, fs, alpha in plan:
         for (e, d) in fs:
-            out.append(dict(id="history/%d/%s%s" % (depth, EVENTS[e], "-noOH" if d else ""), fn="history", params={"depth": depth, "first": e, "fd": d},
+            out.append(dict(id="history/%d/%s%s" % (depth, EVENTS[e], "-noOH" if d else ""), fn="history", params={"depth": depth, "first": e, "fd": d, "alpha": alpha},
                             timeout=(200 if depth == 2 else 900) if depth < 4 else 6000,
-                            bound="every sequence of %d events starting with %s%s over %d kinds x {well-formed, no Origin-Host} on a ready connection, with a ledger of unanswered requests" % (
-                                depth, EVENTS[e], " (no Origin-Host)" if d else "", len(EVENTS))))
+                            bound="every sequence of %d events starting with %s%s over %s x {well-formed, no Origin-Host} on a ready connection, with a ledger of unanswered requests" % (
+                                depth, EVENTS[e], " (no Origin-Host)" if d else "", ("%d kinds" % len(EVENTS)) if alpha is None else "8 core kinds (later steps well-formed)")))
     return out
